@@ -7,6 +7,10 @@ ids = [p["id"] for p in props]
 
 # id -> (technique, level text, level note, design ref)
 CLAIMED = {
+ "C09": ("stateful model-based testing: proptest-generated operation histories interpreted against the library and an in-memory model; invariants after every step",
+         "Generated-input search over histories of create / update (base direct, base compressed, created, repeated) / promise / fulfil / read / save / failing save then repair / copy of a file-backed stream, on corpus bases (classic, xref-stream with object streams, junk before the header) and generated bases, cached and uncached. After each write reads through the open document must show it; after each save the old revision must be a byte prefix, and a fresh load must resolve every written reference to its last value and every untouched object to its old value.",
+         "objects that loading itself reads are not overwritten (that would invalidate the file); saved bytes come from File::save_to",
+         "DESIGN.md §4 C09"),
  "C01": ("seeded structure-aware mutation fuzzing of corpus and generated documents in isolated worker processes, driven by proptest (shrinkable mutation lists); oracle = every call of the deep walk returns, no panic/abort, bounded allocation",
          "Generated-input search: each input (corpus file, corpus mutant with 1-8 stacked token- and byte-level mutations, generated typed document with damage inside object bodies applied before layout so the file still loads, raw bytes) is walked deeply (pages, resources, fonts, images, forms, content, trees, outlines, fields, every object number, recovery scan) in strict/tolerant x cached/uncached, each walk in a worker process with a counting allocator; panics are collected per call, a dead worker or a confirmed time-out pins the input, allocation is checked against T <= 256MiB + 4000(n+d), P <= 128MiB + 400(n+d). About half of the inputs reach typed loading (see evidence labels).",
          "absence of hangs is judged by a 40 s budget confirmed at 160 s; the walk is what engine/walker.rs reads; a search cannot cover all byte strings",
